@@ -48,16 +48,21 @@ void PulseNode :: InvalidatePulseTime(bool clearPrevResult)
 
 void PulseNode :: GetPulseTimeAux(uint64 now, uint64 & min)
 {
-   // First, update myself, if necessary...
-   if (_myScheduledTimeValid == false)
+   // Our own GetPulseTime() callback (or one of our descendants' callbacks) might call InvalidatePulseTime() on us
+   // while we are executing here; if that happens we go around again (a bounded number of times) so the request isn't lost.
+   for (uint32 pass=0; ((pass==0)||((_myScheduledTimeValid == false)&&(pass<8))); pass++)
    {
-      _myScheduledTimeValid = true;
-      _myScheduledTime = GetPulseTime(PulseArgs(now, _myScheduledTime));
-   }
+      // First, update myself, if necessary...
+      if (_myScheduledTimeValid == false)
+      {
+         _myScheduledTimeValid = true;
+         _myScheduledTime = GetPulseTime(PulseArgs(now, _myScheduledTime));
+      }
 
-   // Then handle any of my kids who need to be recalculated also
-   PulseNode * & firstNeedy = _firstChild[LINKED_LIST_NEEDSRECALC];
-   if (firstNeedy) while(firstNeedy) firstNeedy->GetPulseTimeAux(now, min);  // guaranteed to move (firstNeedy) out of the recalc list!
+      // Then handle any of my kids who need to be recalculated also
+      PulseNode * & firstNeedy = _firstChild[LINKED_LIST_NEEDSRECALC];
+      if (firstNeedy) while(firstNeedy) firstNeedy->GetPulseTimeAux(now, min);  // guaranteed to move (firstNeedy) out of the recalc list!
+   }
 
    // Recalculate our effective pulse time
    const uint64 oldAggregatePulseTime = _aggregatePulseTime;
